@@ -113,12 +113,27 @@ def judge(sim, g, targets, res, phony_err=False, disc=None, model=None, files_be
         sig = None
         ddfin_ = [ev['seq'] for ev in res['trace'] if ev['ev'] == 'finish' and sim is not None and (sim.edge_by_key(ev['edge']) or {}).get('is_dd_producer')]
         cons_start = [ev['seq'] for ev in res['trace'] if ev['ev'] == 'start' and inject is not None and ev['edge'] == inject.get('consumed_by')]
+        bound_unplanned = False
+        if inject is not None and inject.get('kind') == 'dyndep_out_cycle':
+            # is the bound statement part of the plan before its dyndep file is read (closure without dyndep-added outputs)?
+            prod0 = {o: e for e in g['edges'] for o in e['outs'] + e.get('iouts', [])}
+            seen0, todo0 = set(), list(targets)
+            while todo0:
+                n0 = todo0.pop()
+                e0 = prod0.get(n0)
+                if e0 is None or key(e0) in seen0:
+                    continue
+                seen0.add(key(e0))
+                todo0 += e0['exp'] + e0['imp'] + e0['oo'] + list(disc.get(key(e0), [])) + models.dd_inputs(g, e0) + ([e0['dd']] if e0.get('dd') else [])
+            bound_unplanned = inject.get('edge') not in seen0
         if inject is not None and inject.get('kind') == 'dyndep_out_cycle' and (
-                not inject.get('mid_build') or not cons_start or (ddfin_ and cons_start[0] < max(ddfin_))):
+                not inject.get('mid_build') or not cons_start or (ddfin_ and cons_start[0] < max(ddfin_)) or bound_unplanned):
             # known finding D19: the output is added by a dyndep file that is loaded during the initial scan, after the
             # statement consuming that file (then still a plain source) has been visited, or mid-build while that
-            # statement is up to date (not part of the plan) or was already started before the file could be read;
-            # in all these cases it is not re-scanned
+            # statement is up to date (not part of the plan) or was already started before the file could be read, or
+            # while the statement that gets the output is itself not part of the plan (nothing requested needs it by
+            # what the manifest says, so Plan::UnmarkDependents skips it and the consumers of its new output);
+            # in all these cases the consuming statement is not re-scanned
             sig = D19
         return ("cycle %s in the needed part of the graph is not diagnosed: phase=%s status=%s err=%r started=%s" % (cyc, res['phase'], res['status'], res['err'], starts), sig)
     if reported and not cyc:
@@ -278,6 +293,10 @@ def inject(draw_ints, sim, kind):
             pe['content_override'] = {dd: dict(by='', table={}, default=text)}
             sim.write(pe['exp'][0], sim.new_content(pe['exp'][0], 5))      # the producer is dirty: the file is loaded mid-build
             desc['mid_build'] = True
+            if kind == 'dyndep_out_cycle' and c % 3:
+                # the consuming statement is dirty too: it is already wanted (possibly scheduled) when the file is read
+                sim.write(srcname, sim.new_content(srcname, 6))
+                desc['consumer_dirty'] = True
         else:
             sim.write(dd, text)
         return desc
@@ -351,7 +370,7 @@ def run_cycle_case(probe, g, ops, inj):
             try:
                 r = probe.request(req, timeout_ms=20000)
             except ProbeDied as dd:
-                findings.append(dict(prop=PROP, kind='crash or hang', detail=dd.describe(), known=None))
+                findings.append(dict(prop=PROP, kind='crash or hang', detail=dd.describe(), known=simrun.classify_died(sim.g, dd)))
                 break
             cyc = find_cycle(sim.g, targets, disc_all, phony_filter=not phony_err)
             labels.add('cyclic_closure' if cyc else 'acyclic_closure')
@@ -359,6 +378,8 @@ def run_cycle_case(probe, g, ops, inj):
                 labels.add('cycle_via_discovered')
             if cyc and kind.startswith('dyndep') and desc.get('mid_build'):
                 labels.add('cycle_appears_mid_build')
+                if desc.get('consumer_dirty'):
+                    labels.add('cycle_appears_mid_build_consumer_already_wanted')
             out = judge(sim, sim.g, targets, r, phony_err=bool(phony_err), disc=disc_all, model=model, files_before=files_before, inject=desc)
             if out:
                 findings.append(dict(prop=PROP, kind=out[0], detail=dict(inject=desc, targets=targets, manifest=graphs.manifest(sim.g)), known=out[1]))
@@ -368,17 +389,22 @@ def run_cycle_case(probe, g, ops, inj):
         sim.close()
 
 
-def gen_worker(widx, n_examples):
+def gen_worker(widx, n_examples, focus=None):
     res = common.Result()
     known = common.Known()
     state = {}
     budget = common.ShrinkBudget()
     with Probe("fast") as pf, Probe("san") as ps:
-        @hseed(common.sub_seed(PROP, widx))
+        # focus='dyndep': every graph has dyndep files and the injection always goes through one (these shapes are rare in
+        # the general family: a bound statement, an upstream plain-source consumer, a produced file)
+        feats = dict(unordered_hidden=False, dyndep='some') if focus is None else dict(unordered_hidden=False, dyndep=True, deps=False, rsp=False, pools=False)
+        kinds = KINDS if focus is None else ['dyndep_in_cycle', 'dyndep_out_cycle', 'dyndep_out_cycle']
+
+        @hseed(common.sub_seed(PROP, widx, focus or ''))
         @settings(max_examples=n_examples, deadline=None, database=None, suppress_health_check=list(HealthCheck),
                   phases=[Phase.generate, Phase.shrink], verbosity=Verbosity.quiet, report_multiple_bugs=False)
-        @given(graphs.graphs(max_edges=7, features=dict(unordered_hidden=False, dyndep='some')), graphs.histories(max_ops=4, with_failures=False),
-               st.tuples(st.sampled_from(KINDS), st.integers(0, 40), st.integers(0, 40), st.integers(0, 40), st.booleans(), st.booleans()))
+        @given(graphs.graphs(max_edges=7 if focus is None else 5, features=feats), graphs.histories(max_ops=4 if focus is None else 2, with_failures=False),
+               st.tuples(st.sampled_from(kinds), st.integers(0, 40), st.integers(0, 40), st.integers(0, 40), st.booleans(), st.booleans()))
         def test(g, ops, inj):
             case = dict(g=g, ops=ops, inj=list(inj))
             dg = common.digest(case)
@@ -441,7 +467,8 @@ def run(tier):
     ck.merge(res)
     ck.extra_cov['exhaustive_small_graphs'] = not res.failures
     ck.extra_cov['small_graph_invocations'] = res.evaluations
-    r2 = common.run_workers(gen_worker, [(w, (6000 if thorough else 250)) for w in range(common.NCPU)])
+    r2 = common.run_workers(gen_worker, [(w, (6000 if thorough else 250)) for w in range(common.NCPU)] +
+                            [(w, (4000 if thorough else 200), 'dyndep') for w in range(common.NCPU)])
     ck.merge(r2)
     for f in res.failures + r2.failures:
         if f.get('harness_error'):
